@@ -259,6 +259,22 @@ def explore(shard, ctx, tier, only_hist=None):
             ctx.violation('resume-exits-cleanly', f'{ID}/uninterrupted-run-fails', f'{r0["error"]}', dict(shard, hist=[]))
             return
         ref = canon(world.snapshot())
+        # every requested output of every input page, under the page's own id
+        nlines = [len(l) for l in PAGE_LINES[:len(world.ids)]]
+        expected = set()
+        for pid, nl in zip(world.ids, nlines):
+            for k in shard['subset']:
+                kind = KINDS[k]
+                if kind == 'lines':
+                    expected |= {os.path.join('lines', f'{pid}-r1-l{j + 1:03d}.jpg') for j in range(nl)}
+                else:
+                    expected.add(os.path.join(kind, pid + {'xml': '.xml', 'render': '.jpg', 'logits': '.logits', 'alto': '.xml'}[kind]))
+        have = {rel for rel, _ in ref}
+        if have != expected:
+            ctx.violation('every-output-present-and-equal', f'{ID}/uninterrupted-run-writes-wrong-files',
+                          f'outputs {[KINDS[k] for k in shard["subset"]]}, page ids {world.ids}: missing {sorted(expected - have)}, unexpected {sorted(have - expected)}',
+                          dict(shard, hist=[]))
+            return
         if only_hist is not None:
             world.restore({})
             for k in only_hist:
